@@ -17,6 +17,8 @@ mod harness;
 mod json;
 mod release;
 mod rng;
+mod ros;
+mod roscheck;
 mod stats;
 mod streams;
 mod supplysim;
@@ -113,6 +115,8 @@ fn main() {
                 "C02" => unicheck::run_uni_property(&opt, "C02"),
                 "C03" => unicheck::run_uni_property(&opt, "C03"),
                 "C18" => unicheck::run_c18(&opt),
+                "C04" => roscheck::run_ros_property(&opt, "C04"),
+                "C05" => roscheck::run_ros_property(&opt, "C05"),
                 "C09" => supplysim::run_c09(&opt),
                 "C10" => streams::run_c10(&opt),
                 "C12" => derived::run_c12(&opt),
@@ -143,6 +147,7 @@ fn main() {
                 "uni" => unicheck::replay_uni(path, &text),
                 "uni-tight" => unicheck::replay_tight(path, &text),
                 "supply" => supplysim::replay_supply(path, &text),
+                "ros" => roscheck::replay_ros(path, &text),
                 "stream" => streams::replay_stream(path, &text),
                 "derived" => derived::replay_derived(path, &text),
                 "extrap" => extrap::replay_extrap(path, &text),
